@@ -90,7 +90,8 @@ def check(run):
         run.violation_unproved("harness-build", out)
         return run.finish(trusted=asmfam.TRUSTED)
     dis = common.correspond(run, cases, asmfam.IMPORTS, tag="c14", timeout=600)
-    # ---- A': strings through the PEG model of asm.pest (Model/Peg.v, proved total in Props/C14.v) and through pest
+    # ---- A': strings through the model FROM SOURCE TEXT (Model/Peg.v + Model/ParseTree.v + Model/Asm.v, proved panic-free
+    # in Props/C14.v: C14_text_never_panics) and through pest / parse_asm / Ingest::ingest: pairs, tree, bytes
     from checks import pegcorr
     peg_dis = pegcorr.report(run)
     # ---- B: strings through the whole assembler: outcome must be a returned value
@@ -159,18 +160,18 @@ def check(run):
             if found <= 3:
                 run.violation(dict(property="C14", source=c["src"], outcome=c["impl"], replay="see source"))
     run.corr["rule"] = ("A: AST-level programs with each of 20 fault kinds, random macro programs, the operand-range / auto-sizing / layout families of C09 C07 C01, label-dependent pushes of 2^256..2^300 and negative values (plain, inside an instruction macro, through an expression macro, label before and after), compared with the model (which must not return Panic either); "
-                        "A': the PEG model of asm.pest vs pest's pairs (categories peg:*: generated programs, programs over every statement kind in random layouts, hand-written odd texts, mutations, truncations, splices); B: 100 hand-written odd strings + byte-level mutations of valid and odd sources (insert/delete/replace from a punctuation-heavy alphabet, truncate, duplicate); "
+                        "A': the model from source text in three layers on the same texts (categories peg:* / text:*: generated programs, programs over every statement kind in random layouts, hand-written odd texts, mutations, truncations, splices): PEG model vs pest's pairs, Model/ParseTree.v vs parse_asm (Debug rendering of the nodes or the ParseError kind), and text -> bytes vs Ingest::ingest for texts without file directives; B: 100 hand-written odd strings + byte-level mutations of valid and odd sources (insert/delete/replace from a punctuation-heavy alphabet, truncate, duplicate); "
                         "C: cyclic imports/includes, missing files, directories, invalid hex, 14 unusual root paths x 7 directives; D: deep parenthesis nesting; "
                         "outcome of every case must be a returned value; distinct = distinct requests")
     if (not proof_ok or dis or peg_dis) and not found:
         if peg_dis:
             d = peg_dis[0]
-            run.violation_unproved("correspondence: PEG model of asm.pest (Model/Peg.v) vs the pest parser (pairs of Rule::program)",
-                                   dict(text=d["text"][:2000], hex=d["hex"][:4000], pest=str(d["impl"])[:1500], model=str(d["model"])[:1500], n=len(peg_dis)))
+            run.violation_unproved(pegcorr.describe(d),
+                                   dict(text=d["text"][:2000], hex=d["hex"][:4000], impl=str(d["impl"])[:1500], model=str(d["model"])[:1500], n=len(peg_dis)))
         elif dis:
             d = dis[0]
             run.log(f"DISAGREE ({len(dis)}) src={d['src'][:300]!r}: impl={str(d['impl'])[:200]!r} model={str(d['model'])[:200]!r}")
             run.violation_unproved("correspondence Model/Asm.v vs etk-asm (error paths)", dict(source=d["src"][:3000], impl=d["impl"], model=d["model"], n=len(dis)))
         else:
             run.violation_unproved("theorems of Props/C14.v", run.proof["log"])
-    return run.finish(trusted=asmfam.TRUSTED + ["pest: modelled by Model/Peg.v (generic PEG interpreter following pest_generator / parser_state.rs) on Gen/AsmGrammar.v (tools/gen_tables.py reads asm.pest completely); the model is tied to the real parser by the peg:* differential runs, pest_meta's optimizer passes and pest's error reporting are not modelled; parse/mod.rs (pairs -> syntax tree) and the native stack remain covered by exploration only"])
+    return run.finish(trusted=asmfam.TRUSTED + ["pest: modelled by Model/Peg.v (generic PEG interpreter following pest_generator / parser_state.rs) on Gen/AsmGrammar.v (tools/gen_tables.py reads asm.pest completely); pairs -> syntax tree (parse/mod.rs, macros.rs, expression.rs, args.rs) modelled by Model/ParseTree.v; both tied to the real parser by the peg:* / text:* differential runs (pairs, Debug rendering of the nodes, assembled bytes); pest_meta's optimizer passes and pest's error reporting are not modelled; file directives of a text (%import/%include/%include_hex) are outside C14_text_never_panics (they are Model/Ingest.v, C12/C18) and the native stack remains covered by exploration only"])
